@@ -519,6 +519,13 @@ pub fn run_property<P: Property>(prop: &P, tier: Tier, seed: u64) -> RunOutcome 
     }
 
     stats.merge(merged.into_inner().unwrap());
+    let abandoned = crate::scale::ABANDONED_TOOL_CALLS.load(Ordering::SeqCst);
+    if abandoned > 0 {
+        stats.stages.insert(
+            "tool_calls_abandoned_after_their_time_limit".into(),
+            json!({"count": abandoned, "meaning": "scale cases skipped because the crate's call ran longer than max(20 s, 25 x the reference evaluator's time); no verdict for them"}),
+        );
+    }
     known_hits.extend(known_hits_m.into_inner().unwrap());
     known_hits.sort();
     known_hits.dedup();
@@ -533,6 +540,27 @@ pub fn run_property<P: Property>(prop: &P, tier: Tier, seed: u64) -> RunOutcome 
         failure,
         known_hits,
         wall_s: t0.elapsed().as_secs_f64(),
+    }
+}
+
+/// Run `f` on a helper thread; `None` if it does not finish within `limit` (the thread is left
+/// running until the process ends).  For calls into the crate on inputs of benchmark size: they
+/// cannot be interrupted, and one that blows up must cost a skipped case, not the whole run.
+pub fn with_time_limit<T: Send + 'static>(limit: Duration, f: impl FnOnce() -> T + Send + 'static) -> Option<T> {
+    let (tx, rx) = std::sync::mpsc::channel();
+    let spawned = std::thread::Builder::new().name("time-limited".into()).stack_size(64 << 20).spawn(move || {
+        let _ = tx.send(f());
+    });
+    if spawned.is_err() {
+        harness_error("cannot spawn a helper thread");
+    }
+    match rx.recv_timeout(limit) {
+        Ok(v) => Some(v),
+        Err(std::sync::mpsc::RecvTimeoutError::Timeout) => {
+            crate::scale::ABANDONED_TOOL_CALLS.fetch_add(1, Ordering::SeqCst);
+            None
+        }
+        Err(std::sync::mpsc::RecvTimeoutError::Disconnected) => harness_error("a helper thread died without a result"),
     }
 }
 
